@@ -183,4 +183,17 @@ PROPS = {
         "thorough": {"cases": 20000, "shards": 16, "shrinktime": "120s", "timeout_s": 3000},
         "assumptions": RUN_ASSUME + ["events after the run began shutting down are not judged"],
     },
+    "C14": {
+        "test": "TestC14", "binary": "sched", "level": "exploration",
+        "rule": "generated histories over ONE prepared workflow (and a twin prepared from the same text): 1-4 rounds, each a single run or 2-6 "
+                "runs started together (start offsets 0-5 ms) with equal or different inputs, some on the twin, some cancelled after 1-30 ms, some "
+                "failing because their run-specific script makes steps fail; optionally the text is prepared again between rounds. Plugin keys carry "
+                "the run key, so every run has its own behaviours and its own slice of the plugin log. oracle: every uncancelled run returns what "
+                "the reference predicts for an isolated first run with its input; its slice of the log satisfies C02's dataflow check (no foreign or "
+                "stale data); the DAG dumps of both prepared workflows are unchanged after all runs. non-trivial = two runs overlap in time or a "
+                "run follows a failed / cancelled one",
+        "quick": {"cases": 360, "shards": 12, "shrinktime": "40s"},
+        "thorough": {"cases": 6000, "shards": 16, "shrinktime": "180s", "timeout_s": 3000},
+        "assumptions": RUN_ASSUME + ["cancelled runs are only required to return (their result is C06's subject)"],
+    },
 }
